@@ -1,6 +1,18 @@
 import CoupeModel.Model.Vn
 import CoupeModel.Driver.Util
 
+/-!
+Driver of C14.  Small cases (`n ≤ twinLimit`) run the PROVEN list model of `Model/Vn.lean`
+and, next to it, the array-based twin below; a difference between the two is printed as
+`twin-mismatch` (which can never equal an implementation line, so it surfaces as a
+correspondence break).  Large cases (the large-n / corner stream: tens of thousands of
+elements, tens of thousands of moves) run the twin only: the list model is quadratic there
+(`List` indexing, insertion sort).  The twin is a line-by-line transcription of the list
+model onto `Array`s (same checks, same tie-breaking, same abort sites); it is not itself the
+subject of the theorems – it is tied to the proven model by the cross-check on every small
+case of every run.
+-/
+
 namespace Coupe.Driver.C14
 open Coupe.Vn Coupe.Driver
 
@@ -18,31 +30,248 @@ def render : Outcome → String
   | .lenMismatch => "lenmismatch"
   | .abort => "panic"
 
-/-- op: `best|first <i64|u64|f64> <threads> <n> <w_0> … <w_{n-1}> <m> <id_0> … <id_{m-1}>`
-(weights are integers in every type; `threads` is the rayon pool size, which the model –
-like the code's result – does not depend on). -/
-def handle (toks : List String) : String :=
-  match toks with
-  | algo :: ty :: th :: n :: rest =>
-    match (do
-      let cfg ← cfgOf ty
-      let _ ← parseNat? th
-      let n ← parseNat? n
-      let (ws, rest) ← takeParsed parseInt? n rest
-      match rest with
-      | m :: rest =>
-        let m ← parseNat? m
-        let (ids, rest) ← takeParsed parseNat? m rest
-        if rest.isEmpty then some (cfg, ws, ids) else none
-      | [] => none) with
-    | none => "bad-op"
-    | some (cfg, ws, ids) =>
-      if cfg.unsigned && ws.any (fun w => decide (w < 0)) then "bad-op"
+/-! ## Array twin -/
+
+/-- `compute_parts_load` -/
+def loadsA (ws : Array Int) (ids : Array Nat) (k : Nat) : Array Int := Id.run do
+  let mut pl := Array.replicate k (0 : Int)
+  for i in [0:ws.size] do
+    let p := ids[i]!
+    pl := pl.set! p (pl[p]! + ws[i]!)
+  return pl
+
+/-- `(min, max)` values of a non-empty table. -/
+def minmaxA (pl : Array Int) : Option (Int × Int) :=
+  if pl.size == 0 then none
+  else some (pl.foldl (fun (a : Int × Int) x => (if x < a.1 then x else a.1, if a.2 < x then x else a.2))
+    (pl[0]!, pl[0]!))
+
+/-- first minimum / last maximum with their indices: `((u, lu), (o, lo))`. -/
+def extremesA (pl : Array Int) : Option ((Nat × Int) × (Nat × Int)) :=
+  if pl.size == 0 then none
+  else Id.run do
+    let mut u := 0
+    let mut lu := pl[0]!
+    let mut o := 0
+    let mut lo := pl[0]!
+    for j in [1:pl.size] do
+      let x := pl[j]!
+      if x < lu then
+        u := j; lu := x
+      if ¬ (x < lo) then
+        o := j; lo := x
+    return some ((u, lu), (o, lo))
+
+/-- The `for q in 0..num_parts` loop of `vn_first` (with the `break`).
+`none` = panic; `some (pl, none)` = no target accepted (table restored);
+`some (pl2, some (q, nimb, nmx))` = moved to `q`. -/
+def tryA (cfg : Cfg) (k p : Nat) (w : Int) (imb : Int) :
+    Nat → Nat → Array Int → Option (Array Int × Option (Nat × Int × Int))
+  | 0, _, pl => some (pl, none)
+  | fuel + 1, q, pl =>
+    if q ≥ k then some (pl, none)
+    else if p == q then tryA cfg k p w imb fuel (q + 1) pl
+    else
+      match csub cfg pl[p]! w with
+      | none => none
+      | some lp' =>
+        let pl := pl.set! p lp'
+        let pl := pl.set! q (pl[q]! + w)
+        match minmaxA pl with
+        | none => none
+        | some (nmn, nmx) =>
+          match csub cfg nmx nmn with
+          | none => none
+          | some nimb =>
+            if imb < nimb then
+              let pl := pl.set! p (pl[p]! + w)
+              match csub cfg pl[q]! w with
+              | none => none
+              | some lq => tryA cfg k p w imb fuel (q + 1) (pl.set! q lq)
+            else some (pl, some (q, nimb, nmx))
+
+/-- `while i != i_last` of `vn_first`. -/
+def scanA (cfg : Cfg) (ws : Array Int) (k : Nat) :
+    Nat → Nat → Nat → Array Nat → Array Int → Int → Int → Nat → Option (Array Nat × Nat)
+  | 0, i, iLast, ids, _, _, _, cnt => if i == iLast then some (ids, cnt) else none
+  | fuel + 1, i, iLast, ids, pl, imb, mx, cnt =>
+    if i == iLast then some (ids, cnt)
+    else
+      let i := (i + 1) % ws.size
+      if i ≥ ids.size then none else
+      let p := ids[i]!
+      let w := ws[i]!
+      if p ≥ pl.size then none else
+      if pl[p]! < mx then scanA cfg ws k fuel i iLast ids pl imb mx cnt
       else
-        match algo with
-        | "best" => render (Coupe.VnBest.run cfg ids ws)
-        | "first" => render (Coupe.VnFirst.run cfg ids ws)
-        | _ => "bad-op"
-  | _ => "bad-op"
+        match tryA cfg k p w imb k 0 pl with
+        | none => none
+        | some (pl, none) => scanA cfg ws k fuel i iLast ids pl imb mx (cnt + 1)
+        | some (pl, some (q, nimb, nmx)) =>
+          scanA cfg ws k fuel i i (ids.set! i q) pl nimb nmx (cnt + 1)
+
+def partCountA (ids : Array Nat) : Nat := 1 + ids.foldl max 0
+
+def firstA (cfg : Cfg) (ids : Array Nat) (ws : Array Int) : Outcome :=
+  let k := partCountA ids
+  if ws.size ≠ ids.size then .lenMismatch
+  else if ws.size == 0 || k < 2 then .ok ids.toList 0
+  else
+    let pl := loadsA ws ids k
+    if pl.foldl (· + ·) 0 == 0 then .ok ids.toList 0
+    else
+      match minmaxA pl with
+      | none => .abort
+      | some (mn, mx) =>
+        match csub cfg mx mn with
+        | none => .abort
+        | some imb =>
+          match scanA cfg ws k ws.size ws.size 0 ids pl imb mx 0 with
+          | none => .abort
+          | some (ids, cnt) => .ok ids.toList cnt
+
+/-- Partition point of the sorted `criterion`: number of elements with `2 w < t2`
+(binary search on `[lo, hi)`). -/
+def ppA (crit : Array WI) (t2 : Int) : Nat → Nat → Nat → Nat
+  | 0, lo, _ => lo
+  | fuel + 1, lo, hi =>
+    if lo ≥ hi then lo
+    else
+      let mid := (lo + hi) / 2
+      if 2 * crit[mid]!.1 < t2 then ppA crit t2 fuel (mid + 1) hi else ppA crit t2 fuel lo mid
+
+inductive NearA where
+  | none | found (c : WI) | abort
+
+/-- inner `loop` of `maybe_nearest`: cursors `a` (= `above`, valid iff `a < size`) and `b`
+(`below = b - 1`, valid iff `b > 0`). -/
+def nearestA (cfg : Cfg) (crit : Array WI) (ids : Array Nat) (o : Nat) (t2 : Int) :
+    Nat → Nat → Nat → NearA
+  | 0, _, _ => .abort
+  | fuel + 1, a, b =>
+    let hasA := a < crit.size
+    let hasB := b > 0
+    let pick : Option (Option (WI × Bool)) :=
+      if hasA && hasB then
+        match csub cfg (2 * crit[a]!.1) t2, csub cfg t2 (2 * crit[b - 1]!.1) with
+        | some da, some db => if da < db then some (some (crit[a]!, true)) else some (some (crit[b - 1]!, false))
+        | _, _ => none
+      else if hasA then some (some (crit[a]!, true))
+      else if hasB then some (some (crit[b - 1]!, false))
+      else some none
+    match pick with
+    | none => .abort
+    | some none => .none
+    | some (some (c, isAbove)) =>
+      if c.2 ≥ ids.size then .abort
+      else if ids[c.2]! == o then .found c
+      else if isAbove then nearestA cfg crit ids o t2 fuel (a + 1) b
+      else nearestA cfg crit ids o t2 fuel a (b - 1)
+
+def bestLoopA (cfg : Cfg) (crit : Array WI) :
+    Nat → Array Nat → Array Int → Nat → Outcome
+  | 0, _, _, _ => .abort
+  | fuel + 1, ids, pl, cnt =>
+    match extremesA pl with
+    | none => .abort
+    | some ((u, lu), (o, lo)) =>
+      match csub cfg lo lu with
+      | none => .abort
+      | some imb =>
+        let t2 := Coupe.VnBest.target2 cfg imb
+        let pp := ppA crit t2 (crit.size + 1) 0 crit.size
+        match nearestA cfg crit ids o t2 (crit.size + 1) pp pp with
+        | .abort => .abort
+        | .none => .ok ids.toList cnt
+        | .found (w, id) =>
+          if imb ≤ w || w == 0 then .ok ids.toList cnt
+          else if id < ids.size then
+            match csub cfg lo w with
+            | none => .abort
+            | some lo' =>
+              let pl := pl.set! o lo'
+              if u ≥ pl.size then .abort
+              else bestLoopA cfg crit fuel (ids.set! id u) (pl.set! u (pl[u]! + w)) (cnt + 1)
+          else .abort
+
+def bestA (cfg : Cfg) (ids : Array Nat) (ws : Array Int) : Outcome :=
+  let k := partCountA ids
+  if ws.size ≠ ids.size then .lenMismatch
+  else if ws.any (fun w => w < 0) then .negativeValues
+  else if ids.size == 0 || ws.size == 0 || ws.all (fun w => w == 0) || k < 2 then .ok ids.toList 0
+  else
+    let pl := loadsA ws ids k
+    let crit := (ws.zipIdx).qsort (fun x y => wiLt x y)
+    let fuel := (pl.foldl (fun s x => s + x * x) 0).toNat + 1
+    bestLoopA cfg crit fuel ids pl 0
+
+/-- Above this length only the twin runs. -/
+def twinLimit : Nat := 64
+
+def runOne (algo : String) (cfg : Cfg) (ws : Array Int) (ids : Array Nat) : Option String :=
+  let twin? : Option Outcome :=
+    match algo with
+    | "best" => some (bestA cfg ids ws)
+    | "first" => some (firstA cfg ids ws)
+    | _ => none
+  match twin? with
+  | none => none
+  | some twin =>
+    if ws.size ≤ twinLimit && ids.size ≤ twinLimit then
+      let proven :=
+        if algo == "best" then Coupe.VnBest.run cfg ids.toList ws.toList
+        else Coupe.VnFirst.run cfg ids.toList ws.toList
+      if proven == twin then some (render proven)
+      else some ("twin-mismatch " ++ render proven ++ " <> " ++ render twin)
+    else some (render twin)
+
+/-- Parses `<n> <x_0> … <x_{n-1}>` from position `pos` of the token array. -/
+def takeA {α} (f : String → Option α) (toks : Array String) (pos : Nat) : Option (Array α × Nat) := do
+  let n ← parseNat? (← toks[pos]?)
+  if pos + 1 + n > toks.size then none
+  let mut out : Array α := Array.mkEmpty n
+  for j in [0:n] do
+    match f toks[pos + 1 + j]! with
+    | none => return ← none
+    | some x => out := out.push x
+  return (out, pos + 1 + n)
+
+/-- One `<ty> <threads> <n> <w…> <m> <ids…>` block starting at `pos`. -/
+def parseCase (toks : Array String) (pos : Nat) : Option (Cfg × Array Int × Array Nat × Nat) := do
+  let cfg ← cfgOf (← toks[pos]?)
+  let _ ← parseNat? (← toks[pos + 1]?)
+  let (ws, p1) ← takeA parseInt? toks (pos + 2)
+  let (ids, p2) ← takeA parseNat? toks p1
+  if cfg.unsigned && ws.any (fun w => w < 0) then none
+  return (cfg, ws, ids, p2)
+
+/-- ops:
+`best|first <i64|u64|f64> <threads> <n> <w_0> … <w_{n-1}> <m> <id_0> … <id_{m-1}>`
+`twice best|first <case A> <case B>` – the same algorithm value and the same array buffer used
+for two successive calls (the model is a function of the input, so it just runs both).
+(weights are integers in every type; `threads` is the rayon pool size, which the model – like
+the code's result – does not depend on). -/
+def handle (toks : List String) : String :=
+  let t := toks.toArray
+  match t[0]? with
+  | some "twice" =>
+    match (do
+      let algo ← t[1]?
+      let (c1, w1, i1, p) ← parseCase t 2
+      let (c2, w2, i2, p') ← parseCase t p
+      if p' ≠ t.size then none
+      let r1 ← runOne algo c1 w1 i1
+      let r2 ← runOne algo c2 w2 i2
+      pure (r1 ++ " ;; " ++ r2)) with
+    | none => "bad-op"
+    | some s => s
+  | some algo =>
+    match (do
+      let (cfg, ws, ids, p) ← parseCase t 1
+      if p ≠ t.size then none
+      runOne algo cfg ws ids) with
+    | none => "bad-op"
+    | some s => s
+  | none => "bad-op"
 
 end Coupe.Driver.C14
